@@ -787,4 +787,82 @@ theorem mnemonicToSeed_reject (sha256 : Bytes → Bytes) (prf : Bytes → Bytes 
     mnemonicToSeed sha256 prf wl m pw = none := by
   unfold mnemonicToSeed; rw [h]
 
+/-! ## further facts about the modelled helpers -/
+
+theorem splitAux_isWord : ∀ (s cur : PyStr), (∀ c ∈ cur, isSpace c = false) →
+    ∀ w ∈ splitAux s cur, IsWord w := by
+  intro s
+  induction s with
+  | nil =>
+    intro cur hc w hw
+    simp only [splitAux] at hw
+    split at hw
+    · simp at hw
+    · rename_i hne
+      simp only [List.mem_singleton] at hw
+      subst hw
+      refine ⟨?_, fun c hcm => hc c (List.mem_reverse.mp hcm)⟩
+      intro h; apply hne; simpa using h
+  | cons c r ih =>
+    intro cur hc w hw
+    simp only [splitAux] at hw
+    by_cases hsp : isSpace c = true
+    · rw [if_pos hsp] at hw
+      split at hw
+      · exact ih [] (by simp) w hw
+      · rename_i hne
+        simp only [List.mem_cons] at hw
+        rcases hw with rfl | hw
+        · refine ⟨?_, fun c hcm => hc c (List.mem_reverse.mp hcm)⟩
+          intro h; apply hne; simpa using h
+        · exact ih [] (by simp) w hw
+    · rw [if_neg hsp] at hw
+      refine ih (c :: cur) ?_ w hw
+      intro d hd
+      simp only [List.mem_cons] at hd
+      rcases hd with rfl | hd
+      · simpa using hsp
+      · exact hc d hd
+
+/-- `str.split()` returns non-empty fields free of whitespace -/
+theorem pySplit_isWord (s : PyStr) : ∀ w ∈ pySplit s, IsWord w :=
+  splitAux_isWord s [] (by simp)
+
+theorem hexOf_length : ∀ (b : Bytes), (hexOf b).length = 2 * b.length := by
+  intro b
+  induction b with
+  | nil => rfl
+  | cons x r ih => simp only [hexOf, List.length_cons, ih]; omega
+
+/-- once closed, every read raises and close does nothing -/
+theorem run_closed (prf : Bytes → Bytes → Bytes) : ∀ (ops : List PbOp),
+    PBKDF2.run prf none ops = ops.map fun op => if op = PbOp.close then PbOut.unit else PbOut.raised := by
+  intro ops
+  induction ops with
+  | nil => rfl
+  | cons op r ih => cases op <;> simp [PBKDF2.run, ih]
+
+/-- a history of plain reads on one object is `reads` -/
+theorem run_reads (prf : Bytes → Bytes → Bytes) : ∀ (ns : List Nat) (st : PBKDF2) (outs : List Bytes),
+    PBKDF2.reads prf st ns = some outs → PBKDF2.run prf (some st) (ns.map PbOp.read) = outs.map PbOut.bytes := by
+  intro ns
+  induction ns with
+  | nil => intro st outs h; simp only [PBKDF2.reads, Option.some.injEq] at h; subst h; rfl
+  | cons n r ih =>
+    intro st outs h
+    rw [PBKDF2.reads] at h
+    cases hr : st.read prf n with
+    | none => rw [hr] at h; cases h
+    | some p =>
+      obtain ⟨b, st'⟩ := p
+      rw [hr] at h
+      simp only at h
+      cases hrs : PBKDF2.reads prf st' r with
+      | none => rw [hrs] at h; cases h
+      | some os =>
+        rw [hrs] at h
+        simp only [Option.map_some, Option.some.injEq] at h
+        subst h
+        simp [PBKDF2.run, hr, ih st' os hrs]
+
 end Buidl.Mnemonic
